@@ -2,5 +2,8 @@ SPECIFICATION Spec
 CONSTANTS
   Faithful = FALSE
   CrossResps <- CoreResps
-INVARIANTS TypeOK RelayedUnchanged XffDeviationShape ReturnedUnchanged UpstreamHeaderWins OneCall FailureIsReported DevsOnlyWhenFaithful NoDeviation
+  Sides = {"req", "rsp", "fault"}
+  FaultReqs <- FaultReqsQ
+  FaultResps <- FaultRespsQ
+INVARIANTS TypeOK RelayedUnchanged XffDeviationShape ReturnedUnchanged UpstreamHeaderWins OneCall FailureIsReported FaithfulPresentations OwnAnswerOnly DevsOnlyWhenFaithful NoDeviation
 CHECK_DEADLOCK FALSE
